@@ -57,3 +57,17 @@ func SortedKeys[K comparable, V any](m map[K]V, less func(a, b K) bool) []K {
 	sort.Slice(keys, func(i, j int) bool { return less(keys[i], keys[j]) })
 	return keys
 }
+
+var randState uint64 = 1
+
+// SeedRand pins the source behind RandIntN for the current run.
+func SeedRand(seed uint64) { randState = seed*2862933555777941757 + 3037000493 }
+
+// RandIntN replaces math/rand/v2.IntN at the rewritten sites (deterministic per run).
+func RandIntN(n int) int {
+	if n <= 0 {
+		return 0
+	}
+	randState = randState*6364136223846793005 + 1442695040888963407
+	return int((randState >> 33) % uint64(n))
+}
